@@ -751,6 +751,38 @@ theorem spec_chain_cells {s out : List Cell} {fields : List String} {I : IdxTabl
     (hwf : ∀ c ∈ s, c.values.keys.Nodup) : ChainFrom s F fields [] s out :=
   developLoop_chain (resampledAtas_tableKeys hF) s [] out (developByAtas_loop h hk hs) (by simp [Dict.keys]) hwf
 
+/-- **spec_chain_slice** (bridge, one slice). `Spec.C17.chainOkSlice` is TRUE of any rearrangement of the tagged
+developed slice — i.e. of what replicate `i` of `_bootstrap_slice` is (`spec_chain_replicate`) — for the model's
+own table from ANY index draws: the cells are found by coordinate (`repCell_of_pairing`, positional pairing) and the
+"previous cell of the row" is the developed cell before it. Hypotheses: canonical slice with one metadata,
+pairwise distinct coordinates, distinct field names per cell, and `RowsByLag s` (the cells of a period with a
+smaller lag end with the list predecessor; none for the period's earliest cell). -/
+theorem spec_chain_slice {s out rep : List Cell} {fields : List String} {I : IdxTable} {F : Factors} {i : Nat}
+    (hF : resampledAtas s fields I = .ok F) (h : developByAtas s F = .ok out)
+    (hp : rep.Perm (out.map (tagCell i)))
+    (hk : kindsConsistent s = true) (hs : s.Pairwise (fun a b => Cell.le a b))
+    (hnd : (s.map (·.coord)).Nodup) (hmd : ∀ c ∈ s, ∀ c' ∈ s, c.md = c'.md)
+    (hwf : ∀ c ∈ s, c.values.keys.Nodup) (hrows : RowsByLag s) :
+    Spec.C17.chainOkSlice s rep i fields I = true :=
+  spec_chain_slice' hF h hp hk hs hnd hmd hwf hrows
+
+/-- **spec_chain_replicate.** … in particular of replicate `i` of an age-to-age slice as the model computes it
+from numpy's index draws (`replicateD`, the body of `_bootstrap_slice`) -/
+theorem spec_chain_replicate {s rep : List Cell} {fields : List String} {d : Draws} {i : Nat}
+    (h : replicateD s fields d i = .ok rep) (hu : useAtas s = true)
+    (hk : kindsConsistent s = true) (hs : s.Pairwise (fun a b => Cell.le a b))
+    (hnd : (s.map (·.coord)).Nodup) (hmd : ∀ c ∈ s, ∀ c' ∈ s, c.md = c'.md)
+    (hwf : ∀ c ∈ s, c.values.keys.Nodup) (hrows : RowsByLag s) :
+    Spec.C17.chainOkSlice s rep i fields d.I = true :=
+  spec_chain_replicate' h hu hk hs hnd hmd hwf hrows
+
+/-- **dev_lag_strict_mono.** The development lag in months is strictly increasing in the evaluation date (valid
+calendar dates, any period end): within a period, sorting by evaluation date is sorting by lag — the fact behind
+`RowsByLag` -/
+theorem dev_lag_strict_mono {pe e1 e2 : Date} (v1 : e1.valid = true) (v2 : e2.valid = true)
+    (h : Date.cmp e1 e2 = .lt) : calculateDevLag pe e1 .month < calculateDevLag pe e2 .month :=
+  devLag_strictMono v1 v2 h
+
 /-- **bootstrapD_is_bootstrap.** The model that takes numpy's INDEX draws (and computes the empirical factors
 itself, `ataTable` / `resampledAtas`) is an instance of the factor-table model … -/
 theorem bootstrapD_is_bootstrap {t : List Cell} {n : Int} {field : Option (List String)}
@@ -836,5 +868,15 @@ example : (exSamples.map (·.coord)).Nodup ∧ UniformFields exSamples ∧ ∀ i
   · intro i c1 h1 c2 h2 _
     simp only [exSamples, List.mem_cons, List.not_mem_nil, or_false] at h1 h2
     rcases h1 with rfl | rfl <;> rcases h2 with rfl | rfl <;> rfl
+
+/-- the layout hypothesis of `spec_chain_slice` is satisfiable: a 2 × 2 age-to-age square (two periods, lags 0 and 12) -/
+example : RowsByLag exSquare := by
+  intro j hj
+  have : j = 0 ∨ j = 1 ∨ j = 2 ∨ j = 3 := by simp [exSquare] at hj; omega
+  rcases this with rfl | rfl | rfl | rfl
+  · exact ⟨fun _ => by decide +kernel +revert, fun h => absurd (by decide +kernel +revert) h⟩
+  · exact ⟨fun h => absurd h (by decide +kernel +revert), fun _ => ⟨0, rfl, by decide +kernel +revert⟩⟩
+  · exact ⟨fun _ => by decide +kernel +revert, fun h => absurd (by decide +kernel +revert) h⟩
+  · exact ⟨fun h => absurd h (by decide +kernel +revert), fun _ => ⟨2, rfl, by decide +kernel +revert⟩⟩
 
 end Bermuda.Properties.C17
